@@ -46,28 +46,29 @@ type aval struct {
 }
 
 type arrayRun struct {
-	rep    *Report
-	tr     *Trace
-	hist   int
-	tag    string
-	step   int
-	T      uint32
-	rng    *Rng
-	base   *LogBase
-	st     *atree.PersistentSlabStorage
-	rec    *RecStorage
-	addr   atree.Address
-	arr    *atree.Array
-	shadow []aval
-	nextID int64
-	ti     uint64
-	failed bool
-	maxH   int
-	splits int
-	merges int
-	maxFan int
-	tall   bool // thousands of tiny elements at the smallest slab size, then long runs of tail removals (height 3-4, index-slab rebalancing)
-	deep   bool // many small elements: index slabs with >= 32 children (binary-search routing), height 3
+	rep     *Report
+	tr      *Trace
+	hist    int
+	tag     string
+	step    int
+	T       uint32
+	rng     *Rng
+	base    *LogBase
+	st      *atree.PersistentSlabStorage
+	rec     *RecStorage
+	addr    atree.Address
+	arr     *atree.Array
+	shadow  []aval
+	nextID  int64
+	ti      uint64
+	failed  bool
+	maxH    int
+	splits  int
+	merges  int
+	maxFan  int
+	hugeIdx uint64 // index of the current rejected request when it exceeds int64
+	tall    bool   // thousands of tiny elements at the smallest slab size, then long runs of tail removals (height 3-4, index-slab rebalancing)
+	deep    bool   // many small elements: index slabs with >= 32 children (binary-search routing), height 3
 }
 
 func (r *arrayRun) viol(what, detail string) {
@@ -338,12 +339,13 @@ func (r *arrayRun) doGet(i uint64) {
 		return
 	}
 	r.rep.Err("IndexOutOfBounds")
+	opLine := "1 " + strconv.FormatUint(i, 10)
 	if err == nil {
 		r.viol("C01: out-of-range Get did not fail", fmt.Sprint(i))
-		r.tr.Step([]int64{1, int64(i)}, []int64{98})
+		r.tr.StepRaw(opLine, []int64{98})
 	} else {
 		r.checkUserError(err, "index out of bounds")
-		r.tr.Step([]int64{1, int64(i)}, []int64{9, errCode(err)})
+		r.tr.StepRaw(opLine, []int64{9, errCode(err)})
 	}
 	r.step++
 }
@@ -358,6 +360,10 @@ func (r *arrayRun) storedElem(i uint64) ([]int64, bool) {
 }
 
 func (r *arrayRun) doMut(kind int, i uint64) {
+	r.hugeIdx = 0
+	if i > 1<<63-1 {
+		r.hugeIdx = i
+	}
 	n := uint64(len(r.shadow))
 	d := r.wantDump()
 	switch kind {
@@ -463,7 +469,18 @@ func (r *arrayRun) rejected(op []int64, f func() error, what string) {
 	if r.stateFingerprint() != before || len(r.rec.Log) != nlog {
 		r.viol("C18: rejected "+what+" left a trace (slab tree, write set or allocator changed)", fmt.Sprint(op))
 	}
-	r.tr.Step(op, append([]int64{9, errCode(err)}, r.mutTail(op[len(op)-1] == 1)...))
+	obs := append([]int64{9, errCode(err)}, r.mutTail(op[len(op)-1] == 1)...)
+	if r.hugeIdx != 0 {
+		// the index does not fit int64: format the operation line by hand
+		parts := make([]string, len(op))
+		for k, x := range op {
+			parts[k] = strconv.FormatInt(x, 10)
+		}
+		parts[1] = strconv.FormatUint(r.hugeIdx, 10)
+		r.tr.StepRaw(strings.Join(parts, " "), obs)
+	} else {
+		r.tr.Step(op, obs)
+	}
 	r.step++
 }
 
@@ -637,11 +654,21 @@ func dumpSlabIDs(d []int64) map[int64]bool {
 
 func (r *arrayRun) reopenCheck() {
 	// C01/C03: after commit the array can be reopened by its root identifier in a brand-new storage
-	if err := r.st.FastCommit(2); err != nil {
+	var err error
+	mode := r.rng.Intn(4)
+	if mode&1 == 1 {
+		err = r.st.NondeterministicFastCommit(1 + r.rng.Intn(4))
+	} else {
+		err = r.st.FastCommit(1 + r.rng.Intn(4))
+	}
+	if err != nil {
 		r.viol("commit failed", err.Error())
 		return
 	}
-	st2 := newStorage(r.base.Clone())
+	var st2 atree.SlabStorage = newStorage(r.base.Clone())
+	if mode >= 2 {
+		st2 = r.st // reopen on the SAME storage (served from its read cache): C08
+	}
 	a2, err := atree.NewArrayWithRootID(st2, r.arr.SlabID())
 	if err != nil {
 		r.viol("C01: array cannot be reopened by its root identifier", err.Error())
@@ -809,7 +836,7 @@ func cmdArray(a Args) {
 						r.doGet(0)
 					}
 				case 4: // invalid requests
-					bad := []uint64{n, n + 1, n + 7, 1 << 32, ^uint64(0) >> 1}
+					bad := []uint64{n, n + 1, n + 7, 1 << 32, ^uint64(0) >> 1, 1 << 63, ^uint64(0)}
 					i := bad[hr.Intn(len(bad))]
 					switch hr.Intn(4) {
 					case 0:
